@@ -268,14 +268,13 @@ def _close_cycle(case, f) -> dict | None:
             and dtype != "bool":
         nodes.append({"op": "add", "args": [["n", x], ["n", r_idx]]})
     else:
-        nodes.append({"op": "astype", "args": [["n", r_idx]],
-                      "p": {"dtype": "float64"}})
-        nodes.append({"op": "sum", "args": [["n", len(nodes) - 1]],
+        # dtype- and shape-preserving for every payload type:
+        # where(any(R > 0), x, x)
+        nodes.append({"op": "greater", "args": [["n", r_idx], ["py", 0]]})
+        nodes.append({"op": "any", "args": [["n", len(nodes) - 1]],
                       "p": {"axis": None}})
-        nodes.append({"op": "mul", "args": [["n", len(nodes) - 1], ["py", 0]]})
-        nodes.append({"op": "add", "args": [["n", x], ["n", len(nodes) - 1]]})
-        nodes.append({"op": "astype", "args": [["n", len(nodes) - 1]],
-                      "p": {"dtype": dtype}})
+        nodes.append({"op": "where", "args": [["n", len(nodes) - 1], ["n", x],
+                                              ["n", x]]})
     v = len(nodes) - 1
     nodes.append({"op": "sendhold", "args": [["n", v], hold["args"][1]],
                   "p": copy.deepcopy(hold["p"])})
